@@ -8,6 +8,16 @@ use rpki::repository::x509::Time;
 #[allow(unused_imports)]
 use rand::rng as rand_thread_rng;
 
+//------------ hash stubs -------------------------------------------------------
+
+/// Replacement bodies for `<DefaultHasher as Hasher>::{write, finish}`: a
+/// constant hash. Any hash function is a valid one for `HashMap` (only
+/// `Eq` decides membership), so results under this stub hold for the real
+/// SipHash as far as map *semantics* go; SipHash itself (13 rounds over
+/// symbolic data) is what CBMC cannot afford.
+pub(crate) fn const_finish(_s: &std::hash::DefaultHasher) -> u64 { 0 }
+pub(crate) fn noop_write(_s: &mut std::hash::DefaultHasher, _b: &[u8]) {}
+
 //------------ the symbolic clock ---------------------------------------------
 //
 // One instant per harness: 2024-01-01T00:00:00Z plus a symbolic number of
